@@ -16,13 +16,17 @@ TRY_WRITE = P + "try_write"
 PHL = "common::headers::Headers::parse_header_line"
 
 _cache = {}
+LOWER_COMBINATORS = False
 
 
-def leaves(ctx, name):
-    key = (id(ctx.facts), name)
+def leaves(ctx, name, lower=None):
+    """Path leaves of a function (cached).  lower=True: closures handed to Option/Result combinators are
+    traversed as the code they are (paths.LOWERABLE) -- used by rules that ask what a function *does*."""
+    lower = LOWER_COMBINATORS if lower is None else lower
+    key = (id(ctx.facts), name, lower)
     if key not in _cache:
         fn = ctx.facts.fn(name)
-        _cache[key] = (fn, PathEnum(fn, ctx.facts).run())
+        _cache[key] = (fn, PathEnum(fn, ctx.facts, lower=lower).run())
     ctx.touched(name)
     return _cache[key]
 
